@@ -545,6 +545,52 @@ func matrixMixture(p ThreadPool, size int, seed int64) result {
 	return result{Params: params(d), Liks: liks}
 }
 
+func structuredHmm(kind string) func(ThreadPool, int, int64) result {
+	return func(p ThreadPool, size int, seed int64) result {
+		rng := rand.New(rand.NewSource(seed))
+		liks := []float64{}
+		hook := generic.BaumWelchHook{Value: func(h generic.BasicHmm, i int, l, e float64) {
+			if i > 0 {
+				liks = append(liks, l)
+			}
+		}}
+		var est *vectorEstimator.HmmEstimator
+		var err error
+		switch kind {
+		case "constrained":
+			pi := NewDenseFloat64Vector([]float64{0.5, 0.3, 0.2})
+			tr := NewDenseFloat64Matrix([]float64{0.4, 0.3, 0.3, 0.3, 0.4, 0.3, 0.3, 0.3, 0.4}, 3, 3)
+			c1, _ := generic.NewEqualityConstraint([]int{0, 1, 1, 0})
+			c2, _ := generic.NewEqualityConstraint([]int{0, 2, 1, 2})
+			est, err = vectorEstimator.NewConstrainedHmmEstimator(pi, tr, []int{0, 1, 1}, nil, nil, []generic.EqualityConstraint{c1, c2}, categoricals(), 0.0, 3, hook)
+		case "hierarchical":
+			pi := NewDenseFloat64Vector([]float64{0.4, 0.2, 0.2, 0.2})
+			tr := NewDenseFloat64Matrix([]float64{
+				0.5, 0.3, 0.1, 0.1,
+				0.3, 0.5, 0.1, 0.1,
+				0.1, 0.1, 0.5, 0.3,
+				0.1, 0.1, 0.3, 0.5}, 4, 4)
+			tree := generic.NewHmmNode(generic.NewHmmLeaf(0, 2), generic.NewHmmLeaf(2, 4))
+			est, err = vectorEstimator.NewHierarchicalHmmEstimator(pi, tr, []int{0, 1, 0, 1}, nil, nil, tree, categoricals(), 0.0, 3, hook)
+		}
+		if err != nil {
+			return result{Err: "construct: " + err.Error()}
+		}
+		xs := make([]ConstVector, size)
+		for i := range xs {
+			xs[i] = NewDenseFloat64Vector(binary(rng, 5+rng.Intn(4)))
+		}
+		if err := est.EstimateOnData(xs, nil, p); err != nil {
+			return result{Err: err.Error(), Liks: liks}
+		}
+		d, err := est.GetEstimate()
+		if err != nil {
+			return result{Err: err.Error(), Liks: liks}
+		}
+		return result{Params: params(d), Liks: liks}
+	}
+}
+
 func scenarios() []scenario {
 	return []scenario{
 		{"vhmm-nested-mixture", "", hmmScenario(nestedMixtures, normalData, nil, nil)},
@@ -583,6 +629,8 @@ func scenarios() []scenario {
 		{"mhmm-scalarid", "bw", matrixHmm(0)},
 		{"mhmm-scalarid-chunked", "", matrixHmm(2)},
 		{"mmix-vectorid", "em", matrixMixture},
+		{"vhmm-constrained", "bw", structuredHmm("constrained")},
+		{"vhmm-hierarchical", "bw", structuredHmm("hierarchical")},
 	}
 }
 
